@@ -430,6 +430,13 @@ def _through_set(v: _View, st: _Store, fld: str) -> bool:
     return False
 
 
+def _anc_nodes(pm, n):
+    cur = n
+    while cur in pm:
+        cur = pm[cur]
+        yield cur
+
+
 def rule_dedup(repo: Repo) -> RuleResult:
     r = RuleResult("C17.dedup", "facts are inserted only when their ground text is not present yet; goal literals pass through a set", "without duplicates")
     _d, v = _views(repo)
@@ -450,7 +457,29 @@ def rule_dedup(repo: Repo) -> RuleResult:
                     if G.reaches_expr({"present": True}, e, seen=seen_t) or not G.reaches_expr({"present": False}, e, seen=seen_f):
                         bad = st
                         break
+        # a fact that is NOT present yet must be inserted: no other test may let an iteration end without the insertion
+        skipped = None
         if bad is None:
+            pmf = L.parents_of(f)
+            for st in adds:
+                site = st.site
+                stmt = site
+                while stmt in pmf and not isinstance(stmt, ast.stmt):
+                    stmt = pmf[stmt]
+                loops_ = [a_ for a_ in _anc_nodes(pmf, stmt) if isinstance(a_, ast.For)]
+                comps_ = [a_ for a_ in _anc_nodes(pmf, site) if isinstance(a_, (ast.SetComp, ast.ListComp, ast.GeneratorExp))]
+                val = G._val({"present": False}, G.reach({"present": False}))
+                for c_ in comps_:
+                    for gen in c_.generators:
+                        if any(C.eval3(t, val) is not True for t in gen.ifs):
+                            skipped = st
+                if loops_ and not comps_:
+                    if not L.must_pass_in_loop(G, {"present": False}, loops_[0], {st.node}):
+                        skipped = st
+        if bad is None and skipped is not None:
+            r.fail(Finding("C17.dedup", f, "facts-skipped", "a fact whose ground text is not present yet can be left out of the combination: another test "
+                           "decides whether it is inserted", node=skipped.site))
+        elif bad is None:
             r.ok({"fact_inserted_iff": "its ground text is not yet among the combined facts", "sites": [unparse(s.site, 50) for s in adds]})
         else:
             r.fail(Finding("C17.dedup", f, "facts-dedup", "a fact whose ground text is already present can be inserted again (or a new one is skipped)", node=bad.site))
